@@ -282,3 +282,60 @@ def c08_winning_router_eligible(ctx, v):
                     return v.undecided("K=%d: solver unknown" % K)
     v.covers_total += 1
     v.covers_sat += 1 if n else 0
+
+
+def c08_requirement_zero_after_two_heartbeats(ctx, v):
+    """BurnFee::return_routing_work_needed_to_produce_block_in_nolan for every parent burn fee,
+    pair of timestamps and heartbeat (2*heartbeat not overflowing): with the block's timestamp
+    after the parent's, the requirement is 0 exactly from an elapsed time of two heartbeats on
+    (elapsed >= 2*heartbeat  =>  0), and misordered timestamps give the prohibitive constant.
+    The floating-point curve below two heartbeats is not modelled (its value is arbitrary here);
+    only the integer gates around it are decided."""
+    body = ctx.body(r"burnfee::<impl at [^>]*>::return_routing_work_needed_to_produce_block_in_nolan$")
+    ex = ctx.executor(loop_bound=3, inline="auto", no_inline=[r"f64", r"round$"])
+    ex.pure = [r".*"]
+    bf, cur, prev, hb = (ex.fresh_value("u64", n) for n in ("parent_burnfee", "block_timestamp", "parent_timestamp", "heartbeat"))
+    st = S.State()
+    st.pc.append(z3.ULE(hb.bv, 1 << 62))
+    outs = ex.run(body, [bf, cur, prev, hb], st)
+    v.paths += len(outs)
+    n = 0
+    elapsed = cur.bv - prev.bv
+    for o in outs:
+        if o.kind in ("unsupported", "unwound", "path-limit"):
+            return v.undecided("%s %s" % (o.kind, o.info))
+        if o.kind == "panic":
+            L.report_panic(v, ex, o, "return_routing_work_needed panics: %s" % o.info)
+            continue
+        if o.kind != "return":
+            continue
+        res = o.value
+        for what, bad in (("the requirement is not zero although two heartbeats or more have elapsed", z3.And(z3.UGT(cur.bv, prev.bv), z3.UGE(elapsed, 2 * hb.bv), res.bv != 0)),
+                          ("misordered timestamps do not give the prohibitive requirement", z3.And(z3.UGE(prev.bv, cur.bv), res.bv != 10_000_000_000_000_000_000))):
+            r, m = ex.model_for(o.pc, bad)
+            v.queries += 1
+            if r == z3.sat:
+                # prefer a witness with a large parent burn fee: the value of the float curve is not modelled, the native replay decides
+                r2, m2 = ex.model_for(o.pc, z3.And(bad, bf.bv == 10**12, z3.ULE(hb.bv, 10**6)))
+                m = m2 if r2 == z3.sat else m
+                ev = lambda x: m.eval(x, model_completion=True).as_long()
+                v.fail("%s (elapsed %d ms, heartbeat %d ms)" % (what, ev(elapsed), ev(hb.bv)), dict(parent_burnfee=ev(bf.bv), block_timestamp=ev(cur.bv), parent_timestamp=ev(prev.bv), heartbeat=ev(hb.bv)))
+                if v.replay_rust is None:
+                    v.replay_rust = ("replay_c08_two_heartbeats", """
+#[test]
+fn replay_c08_two_heartbeats() {
+    use saito_core::core::consensus::burnfee::BurnFee;
+    let (bf, cur, prev, hb): (u64, u64, u64, u64) = (%d, %d, %d, %d);
+    let need = BurnFee::return_routing_work_needed_to_produce_block_in_nolan(bf, cur, prev, hb);
+    if prev >= cur {
+        assert_eq!(need, 10_000_000_000_000_000_000, "misordered timestamps must give the prohibitive requirement");
+    } else if cur - prev >= 2 * hb {
+        assert_eq!(need, 0, "two heartbeats or more have elapsed: the requirement must be zero");
+    }
+}
+""" % (ev(bf.bv), ev(cur.bv), ev(prev.bv), ev(hb.bv)))
+            elif r != z3.unsat:
+                return v.undecided("solver: no verdict")
+        n += 1
+    v.covers_total += 1
+    v.covers_sat += 1 if n else 0
